@@ -50,7 +50,7 @@ GEN_PROPS = {
     'translate-tokrules': (('C19', 'C17'), ('C19gen.v', 'C19glue.v', 'C17glue.v')),
     'translate-buffer': (('C20',), 'C20gen.v'),
     'translate-clo': (('C13',), 'C13clogen.v'),
-    'translate-args': (('C18', 'C15'), ('C18gen.v', 'C15gen.v')),
+    'translate-args': (('C18', 'C15', 'C14'), ('C18gen.v', 'C15gen.v')),
     'translate-token': (('C13',), 'C13token.v'),
     'translate-regex': (('C13',), 'C13regexgen.v'),
     'translate-reader': (READER_PROPS, ('ReadGen.v', 'C17glue.v')),
@@ -59,7 +59,9 @@ GEN_PROPS = {
     'translate-edit': (('C05', 'C14', 'C15'), ('C05gen.v', 'C14gen.v', 'C15gen.v')),
 }
 # Props files that are obligations of several properties (not named after one)
-SHARED_PROPS = {'ReadGen.v': READER_PROPS}
+# C14's re-argumenting clause goes through the TexArgs methods (slices, pop,
+# insert, ... on node.args): their translation is an obligation of C14 too
+SHARED_PROPS = {'ReadGen.v': READER_PROPS, 'C18gen.v': ('C14',)}
 GENERATED_FILES = tuple(g[1] for g in GENERATORS)
 
 
